@@ -27,6 +27,7 @@ func TestC38All(t *testing.T) {
 		t.Skip("set C38ALL=1")
 	}
 	os.Setenv("VERIF_ROOT", t.TempDir())
+	os.Setenv("VERIF_BUDGET_S", "1200")
 	var mu sync.Mutex
 	count := map[string]int{}
 	example := map[string]string{}
@@ -38,7 +39,7 @@ func TestC38All(t *testing.T) {
 			example[sig] = what
 		}
 	}
-	r := ev.Start("C38", ev.LevelExploration, 10*time.Minute, 10*time.Minute)
+	r := ev.Start("C38", ev.LevelExploration, 20*time.Minute, 20*time.Minute)
 	t0 := time.Now()
 	cov, _ := runC38(r)
 	t.Logf("wall %v evaluations=%v distinct=%v outcomes=%v kinds=%v", time.Since(t0), cov["evaluations"], cov["distinct_nontrivial"], cov["outcomes"], cov["cases_per_mutation_kind"])
